@@ -535,6 +535,24 @@ pub fn run(c: &mut Ctx) {
             inputs.push(String::from_utf8_lossy(&h).into_owned());
         }
         inputs.push("\u{1F600}".repeat(11));
+        // multi-byte characters at every alignment, for every total byte length (a text decoder that
+        // slices by byte offsets meets a character boundary it did not expect)
+        for len in 1..=100usize {
+            for ch in ["\u{e9}", "\u{20ac}", "\u{1F600}"] {
+                for lead in 0..=1usize {
+                    let mut s = "a".repeat(lead.min(len));
+                    while s.len() + ch.len() <= len {
+                        s.push_str(ch);
+                    }
+                    while s.len() < len {
+                        s.push('f');
+                    }
+                    inputs.push(s);
+                }
+            }
+            // other plausible text forms of 32 bytes: hexadecimal digits
+            inputs.push("0f".repeat(len / 2));
+        }
         for inp in inputs {
             c.eval();
             c.distinct(&format!("ChannelId|from_str|{}|{}", inp.len(), hex(&inp.as_bytes()[..inp.len().min(24)])));
